@@ -217,7 +217,7 @@ open Conv IR
 /-- the annotation does not make `convertFilterExprImpl` fold the node -/
 def noFold (a : Ann) : Prop := (∀ s, a.cv ≠ .str s) ∧ (∀ n, a.cv ≠ .int n)
 
-theorem convertImplG_noFold (ar : Bool) (e : CExpr) (h : noFold e.ann) : convertImplG ar e = convertStructG ar e := by
+theorem convertImplG_noFold (hk : Hook) (ar : Bool) (e : CExpr) (h : noFold e.ann) : convertImplG hk ar e = convertStructG hk ar e := by
   rw [convertImplG]
   obtain ⟨h1, h2⟩ := h
   cases hc : e.ann.cv with
@@ -228,27 +228,27 @@ theorem convertImplG_noFold (ar : Bool) (e : CExpr) (h : noFold e.ann) : convert
   | other => rfl
 
 theorem convertImpl_noFold (e : CExpr) (h : noFold e.ann) : convertImpl e = convertStruct e :=
-  convertImplG_noFold true e h
+  convertImplG_noFold noHook true e h
 
-theorem convertG_fold_string (ar : Bool) (e : CExpr) (s : Bytes) (h : e.ann.cv = .str s) :
-    convertG ar e = .ok (mkOp "String" (.str s) []) := by
+theorem convertG_fold_string (hk : Hook) (ar : Bool) (e : CExpr) (s : Bytes) (h : e.ann.cv = .str s) :
+    convertG hk ar e = .ok (mkOp "String" (.str s) []) := by
   rw [convertG, convertImplG, h]
   rfl
 
-theorem convertG_fold_int (ar : Bool) (e : CExpr) (n : Int) (h : e.ann.cv = .int n) :
-    convertG ar e = .ok (mkOp "Int" (.int64 n) []) := by
+theorem convertG_fold_int (hk : Hook) (ar : Bool) (e : CExpr) (n : Int) (h : e.ann.cv = .int n) :
+    convertG hk ar e = .ok (mkOp "Int" (.int64 n) []) := by
   rw [convertG, convertImplG, h]
   rfl
 
 /-- **const_fold (string)**: whatever its syntax — literal, named constant, concatenation,
 parenthesised — an expression that go/types evaluates to the string `s` converts to `String s`. -/
 theorem const_fold_string (e : CExpr) (s : Bytes) (h : e.ann.cv = .str s) :
-    convert e = .ok (mkOp "String" (.str s) []) := convertG_fold_string true e s h
+    convert e = .ok (mkOp "String" (.str s) []) := convertG_fold_string noHook true e s h
 
 /-- **const_fold (int)**: an expression that go/types evaluates to an integer with an exact int64
 value converts to `Int n`, whatever its syntax. -/
 theorem const_fold_int (e : CExpr) (n : Int) (h : e.ann.cv = .int n) :
-    convert e = .ok (mkOp "Int" (.int64 n) []) := convertG_fold_int true e n h
+    convert e = .ok (mkOp "Int" (.int64 n) []) := convertG_fold_int noHook true e n h
 
 /-- hence two spellings of the same constant are interchangeable as filter operands -/
 theorem const_spelling_irrelevant (e e' : CExpr) (h : e.ann.cv = e'.ann.cv)
@@ -280,20 +280,20 @@ that converts to the same IR (in particular another spelling of a constant) chan
 theorem binary_congr (a a' : Ann) (op : String) (x y x' y' : CExpr) (ha : noFold a) (ha' : noFold a')
     (hx : convert x = convert x') (hy : convert y = convert y') :
     convert (.binary a op x y) = convert (.binary a' op x' y') := by
-  have e1 := convertImplG_noFold true (.binary a op x y) ha
-  have e2 := convertImplG_noFold true (.binary a' op x' y') ha'
+  have e1 := convertImplG_noFold noHook true (.binary a op x y) ha
+  have e2 := convertImplG_noFold noHook true (.binary a' op x' y') ha'
   unfold convert at hx hy ⊢
-  rw [convertG.eq_1 true (.binary a op x y), convertG.eq_1 true (.binary a' op x' y'), e1, e2, convertStructG, convertStructG, hx, hy]
+  rw [convertG.eq_1 noHook true (.binary a op x y), convertG.eq_1 noHook true (.binary a' op x' y'), e1, e2, convertStructG, convertStructG, hx, hy]
 
 theorem unary_congr (a a' : Ann) (op : String) (x x' : CExpr) (ha : noFold a) (ha' : noFold a')
     (hx : convert x = convert x') : convert (.unary a op x) = convert (.unary a' op x') := by
-  have e1 := convertImplG_noFold true (.unary a op x) ha
-  have e2 := convertImplG_noFold true (.unary a' op x') ha'
+  have e1 := convertImplG_noFold noHook true (.unary a op x) ha
+  have e2 := convertImplG_noFold noHook true (.unary a' op x') ha'
   unfold convert at hx ⊢
-  rw [convertG.eq_1 true (.unary a op x), convertG.eq_1 true (.unary a' op x'), e1, e2, convertStructG, convertStructG, hx]
+  rw [convertG.eq_1 noHook true (.unary a op x), convertG.eq_1 noHook true (.unary a' op x'), e1, e2, convertStructG, convertStructG, hx]
 
 theorem paren_transparent (a : Ann) (x : CExpr) (ha : noFold a) : convertImpl (.paren a x) = convert x := by
-  have e1 := convertImplG_noFold true (.paren a x) ha
+  have e1 := convertImplG_noFold noHook true (.paren a x) ha
   unfold convertImpl convert
   rw [e1, convertStructG]
 
